@@ -272,9 +272,43 @@ func init() {
 	register(sp+"Count", func(fr *frame, a []value) value {
 		return strings.Count(cstr(a[0]), cstr(a[1]))
 	})
-	register(sp+"ToLower", func(fr *frame, a []value) value { return strings.ToLower(cstr(a[0])) })
-	register(sp+"ToUpper", func(fr *frame, a []value) value { return strings.ToUpper(cstr(a[0])) })
-	register(sp+"EqualFold", func(fr *frame, a []value) value { return strings.EqualFold(cstr(a[0]), cstr(a[1])) })
+	// ASCII case mapping on per-character symbolic strings: ite chains, no forking
+	caseMap := func(fr *frame, v value, lower bool) value {
+		s := normStr(v)
+		if c, ok := s.(string); ok {
+			if lower {
+				return strings.ToLower(c)
+			}
+			return strings.ToUpper(c)
+		}
+		if sa, ok := s.(symStr); ok {
+			s = fr.strAtoB(sa)
+		}
+		sb, ok := s.(symStrB)
+		if !ok {
+			panic(unsupported(fmt.Sprintf("strings.ToLower/ToUpper on %T", s)))
+		}
+		return mapCharsB(sb, func(b uint8) uint8 {
+			if lower && b >= 'A' && b <= 'Z' {
+				return b + 32
+			}
+			if !lower && b >= 'a' && b <= 'z' {
+				return b - 32
+			}
+			return b
+		})
+	}
+	register(sp+"ToLower", func(fr *frame, a []value) value { return caseMap(fr, a[0], true) })
+	register(sp+"ToUpper", func(fr *frame, a []value) value { return caseMap(fr, a[0], false) })
+	register(sp+"EqualFold", func(fr *frame, a []value) value {
+		x, y := normStr(a[0]), normStr(a[1])
+		if cx, ok := x.(string); ok {
+			if cy, ok := y.(string); ok {
+				return strings.EqualFold(cx, cy)
+			}
+		}
+		return mkBool(strEqTerm(caseMap(fr, x, true), caseMap(fr, y, true)))
+	})
 	register(sp+"Fields", func(fr *frame, a []value) value {
 		var out []value
 		s := normStr(a[0])
